@@ -73,12 +73,12 @@ type bodyStream struct {
 	// buffer they were read into stays with the request or response as its body
 	// buffer, which resets it, writes the collected body into it (Body()) or hands
 	// it back to its pool (SetBodyStream, ResetBody) while the stream is still read.
-	prefetched []byte
-	reader          network.Reader
-	trailer         *protocol.Trailer
-	offset          int
-	contentLength   int
-	chunkLeft       int
+	prefetched    []byte
+	reader        network.Reader
+	trailer       *protocol.Trailer
+	offset        int
+	contentLength int
+	chunkLeft     int
 	// whether the chunk has reached the EOF
 	chunkEOF bool
 	// framingErr is the first error met while reading chunk framing (a chunk-size
